@@ -1,12 +1,12 @@
 /-
   Aqv.Lemmas.Translated.Vm — ties the mini-translated core/vm and common/math functions (`Aqv.Gen.Translated`, regenerated from
   the go/ssa form of the tree under test) to the hand-written models the property theorems of C07 / C08 are stated on:
-  `Aqv.Evm.*` (Model/EvmOps, UInt64 with wrap-around), `Aqv.Vm.toWordSize` (Model/Vm, Nat) and `Aqv.Big.safeAdd/safeMul/s256`.
+  `Aqv.Evm.*` (Model/EvmOps, UInt64 with wrap-around) and `Aqv.Big.safeAdd/safeMul/s256`; the refinements of the `Nat` model of
+  C07 (Model/Vm) are in Translated/VmNat.
   If the Go source of one of these functions changes its meaning, its `…_translated_eq` stops proving.   Core Lean only.
 -/
 import Aqv.Lemmas.Translated.Basic
 import Aqv.Model.EvmOps
-import Aqv.Model.Vm
 namespace Aqv.Lemmas.Translated
 open Aqv.Gen
 
@@ -17,21 +17,6 @@ theorem toWordSize_translated_eq : Translated.toWordSize = Aqv.Evm.toWordSize :=
   by_cases h : size > 18446744073709551584
   · simp [h]
   · simp [h]
-
-/-- … and refines the `Nat` model of C07 (`Aqv.Vm.toWordSize`). -/
-theorem toWordSize_translated_nat (size : UInt64) :
-    (Translated.toWordSize size).toNat = Aqv.Vm.toWordSize size.toNat := by
-  have h2 : Aqv.Vm.two64 = 18446744073709551616 := rfl
-  have hs := size.toNat_lt
-  unfold Translated.toWordSize Aqv.Vm.toWordSize
-  rw [h2]
-  by_cases h : size > 18446744073709551584
-  · have h' : size.toNat > 18446744073709551616 - 1 - 31 := by simpa [UInt64.lt_iff_toNat_lt] using h
-    simp only [h, h', decide_true, ↓reduceIte]; decide
-  · have h' : ¬ size.toNat > 18446744073709551616 - 1 - 31 := by simpa [UInt64.lt_iff_toNat_lt] using h
-    simp only [h, h', decide_false, Bool.false_eq_true, ↓reduceIte]
-    rw [UInt64.toNat_div, UInt64.toNat_add]
-    simp; omega
 
 theorem SafeAdd_translated_eq : Translated.SafeAdd = Aqv.Big.safeAdd := by
   funext x y; simp [Translated.SafeAdd, Aqv.Big.safeAdd, Aqv.Big.maxU64]
